@@ -71,6 +71,11 @@ Qed.
 Lemma map_clip_log_shortfall f : shortfall eps_clip f <= eps_clip / 2 -> map clip_log f = map ln f.
 Proof. intros H. apply map_clip_log_hi, shortfall_gt; [unfold eps_clip; lra | exact H]. Qed.
 
+(* one element possibly in the clip region (kept in the branch-free form), the rest certified above the threshold *)
+Lemma map_clip_log_head x f : shortfall eps_clip f <= eps_clip / 2 ->
+  map clip_log (x :: f) = clip_log_abs x :: map ln f.
+Proof. intros H. cbn [map]. rewrite clip_log_abs_eq, (map_clip_log_shortfall f H). reflexivity. Qed.
+
 (* ---- weights: alpha and its idempotence ---- *)
 
 Lemma rscale_1 l : rscale 1 l = l.
